@@ -17,10 +17,11 @@ W4(scale, dn, dd, n) ==
       [] scale = "K1" -> CeilDiv(31416 * dd, dn)
       [] scale = "K2" -> CeilDiv((lg * 6932 + 60000) * dd, dn)
       [] scale = "K3" -> CeilDiv((2 * lg * 6932 + 105000) * dd, dn)
-\* quantiles are recorded in 1/16 units, cdf values in 1/4096 units (keeps every product below 2^31 for n <= 5*10^4)
-CountLe(vals, v16) == Cardinality({i \in 1 .. Len(vals) : vals[i] * 16 <= v16})
+\* The harness ranks every returned value among the inserted values: lt = #{x < v}, le = #{x <= v} (with a few
+\* ulps of slack, so that a result an ulp beside a tied value is ranked with the tie).  With ties the empirical
+\* rank of v is the whole interval [lt, le]/n; the error is the distance of q (or of cdf(x)) from that interval.
 Failing(e) ==
-    LET n   == Len(e.vals)
+    LET n   == e.n
         w4  == W4(Hdr.scale, Hdr.dn, Hdr.dd, n)
         \* allowance in items: (3 W + 2/n) * n = 3 W n + 2, rounded up
         rhs0 == CeilDiv(3 * w4 * CeilDiv(n, 100), 100) + 2
@@ -30,9 +31,9 @@ Failing(e) ==
     Cl("C04.centroidBound: at most delta + 3 centroids", e.ncent * Hdr.dd <= Hdr.dn + 3 * Hdr.dd) \cup
     (IF ~big /\ Hdr.scale \in {"K2", "K3"} THEN {} ELSE
        Cl("C04.quantileRankError <= 3 W + 2/n",
-          \A a \in 0 .. e.qd : Abs(CountLe(e.vals, e.q[a + 1]) * e.qd - a * n) <= rhs * e.qd) \cup
+          \A a \in 0 .. e.qd : (e.q_lt[a + 1] - rhs) * e.qd <= a * n /\ a * n <= (e.q_le[a + 1] + rhs) * e.qd) \cup
        Cl("C04.cdfRankError <= 3 W + 2/n",
-          \A k \in 1 .. Len(e.cx) : Abs(e.cdf[k] * n - CountLe(e.vals, e.cx[k] * 16) * 4096) <= (rhs + 1) * 4096))
+          \A k \in 1 .. Len(e.cx) : (e.c_lt[k] - rhs - 1) * 4096 <= e.cdf[k] * n /\ e.cdf[k] * n <= (e.c_le[k] + rhs + 1) * 4096))
 Init == PInit
 Next == PNext(Failing)
 Spec == Init /\ [][Next]_<<l, h>>
